@@ -81,9 +81,14 @@ def _uncovered_kept(ch):
 
 
 def _rand_world(rng, nsmp):
+    """sites are cut into <= 3 contiguous blocks; the phased sites of block k form phase set k of a sample; every read and
+    every mate pair lies inside one block (phase sets separated by gaps no read spans)"""
     K = rng.randint(3, 9)
+    nb = rng.randint(1, min(3, K))
+    cuts = sorted(rng.sample(range(1, K), nb - 1)) if nb > 1 else []
+    bounds = list(zip([0] + cuts, cuts + [K]))          # block k covers sites lo+1..hi
+    blk = [next(k for k, (a, b) in enumerate(bounds) if a <= j < b) for j in range(K)]
     sites = []
-    nsets = [rng.randint(1, 3) for _ in range(nsmp)]
     for j in range(K):
         truth, mode, sets = [], [], []
         for s in range(nsmp):
@@ -99,39 +104,32 @@ def _rand_world(rng, nsmp):
                     sets.append(0)
                 else:
                     mode.append("phased")
-                    sets.append(min(nsets[s], 1 + (j * nsets[s]) // K))
+                    sets.append(blk[j] + 1)
         sites.append({"truth": truth, "mode": mode, "set": sets})
     reads = []
     pair = 0
+
+    def mk(s, lo, hi, h, rev, pr):
+        return {"smp": s + 1, "lo": lo, "hi": hi, "al": [sites[j - 1]["truth"][s][h] for j in range(lo, hi + 1)], "rev": rev, "pair": pr}
     for s in range(nsmp):
         for _ in range(rng.randint(3, 12)):
-            lo = rng.randint(1, K)
-            hi = min(K, lo + rng.randint(0, 3))
-            # shrink until the read touches at most one set
-            while len({sites[j - 1]["set"][s] for j in range(lo, hi + 1) if sites[j - 1]["mode"][s] == "phased"}) > 1:
-                hi -= 1
+            a, b = rng.choice(bounds)
+            lo = rng.randint(a + 1, b)
+            hi = min(b, lo + rng.randint(0, 3))
             h = rng.randrange(2)
-            rd = {"smp": s + 1, "lo": lo, "hi": hi, "al": [sites[j - 1]["truth"][s][h] for j in range(lo, hi + 1)],
-                  "rev": rng.random() < 0.5, "pair": 0}
-            if rng.random() < 0.25 and hi < K:
-                # a mate further right inside the same set (opposite strand: the usual FR pair)
-                lo2 = rng.randint(hi + 1, K)
-                hi2 = min(K, lo2 + rng.randint(0, 2))
-                touched = lambda a, b: {sites[j - 1]["set"][s] for j in range(a, b + 1) if sites[j - 1]["mode"][s] == "phased"}
-                while hi2 >= lo2 and len(touched(lo, hi) | touched(lo2, hi2)) > 1:
-                    hi2 -= 1
-                if hi2 >= lo2:
-                    pair += 1
-                    rd["pair"] = pair
-                    rd["rev"] = False
-                    reads.append(rd)
-                    rd = {"smp": s + 1, "lo": lo2, "hi": hi2, "al": [sites[j - 1]["truth"][s][h] for j in range(lo2, hi2 + 1)],
-                          "rev": True, "pair": pair}
-            reads.append(rd)
+            if rng.random() < 0.25 and hi < b:
+                # a mate further right inside the same block, opposite strand: the usual FR pair
+                lo2 = rng.randint(hi + 1, b)
+                hi2 = min(b, lo2 + rng.randint(0, 2))
+                pair += 1
+                reads.append(mk(s, lo, hi, h, False, pair))
+                reads.append(mk(s, lo2, hi2, h, True, pair))
+            else:
+                reads.append(mk(s, lo, hi, h, rng.random() < 0.5, 0))
     keep = []
     for s in range(nsmp):
-        for k in range(1, nsets[s] + 1):
-            if rng.random() < 0.3:
+        for k in range(1, nb + 1):
+            if rng.random() < 0.3 and any(st["mode"][s] == "phased" and st["set"][s] == k for st in sites):
                 keep.append([s + 1, k])
     ch = {"sites": sites, "reads": reads, "keep": keep}
     # keep the hazard class out of the random worlds: give every phased site of a kept set a covering single-end read
@@ -139,8 +137,7 @@ def _rand_world(rng, nsmp):
         for j, st in enumerate(sites, start=1):
             if st["mode"][s - 1] == "phased" and st["set"][s - 1] == k:
                 if not any(r["smp"] == s and not r["pair"] and r["lo"] <= j <= r["hi"] for r in reads):
-                    h = rng.randrange(2)
-                    reads.append({"smp": s, "lo": j, "hi": j, "al": [st["truth"][s - 1][h]], "rev": rng.random() < 0.5, "pair": 0})
+                    reads.append(mk(s - 1, j, j, rng.randrange(2), rng.random() < 0.5, 0))
     return ch
 
 
@@ -258,7 +255,8 @@ def drive(sc):
                 rd = {"name": name, "flag": flag, "ref": ci, "pos": rec["pos"], "mapq": 60, "cigar": rec["cigar"], "seq": rec["seq"],
                       "qual": rec["qual"], "tags": [("XI", xi)], "rg": f"g{r['smp']}", "_pair": (ci, r["pair"]) if r["pair"] else None}
                 reads.append(rd)
-                absreads.append({"smp": r["smp"], "cov": [off + j for j in range(r["lo"], r["hi"] + 1)], "al": list(r["al"])})
+                absreads.append({"smp": r["smp"], "tpl": (1000 * (ci + 1) + r["pair"]) if r["pair"] else -xi,
+                                 "cov": [off + j for j in range(r["lo"], r["hi"] + 1)], "al": list(r["al"])})
             off += len(ch["sites"])
         # mates share a name and point at each other
         pairs = {}
